@@ -976,7 +976,13 @@ def _run_case(sim, case, acc):
         total2 = no * no * ni * ni
         if "sample" in case:
             rng = Rng(case["seed"])
-            idxs = [rng.below(total2) for _ in range(case["sample"])]
+            idxs = []
+            for _ in range(case["sample"]):
+                i = rng.below(total2)
+                if rng.chance(0.5):
+                    # the inner construct is one that is expanded (macro call, IRP, IRPC, IRPN, REPT): those run their body
+                    i = i - ((i // no) % no) * no + rng.below(5) * no
+                idxs.append(i)
         else:
             idxs = range(case["lo"], case["hi"])
         src = ""
